@@ -25,6 +25,11 @@ TProbe ==
               \cup Flg(R.r.class \notin {"ok", "panic", "err:22"}, "unexpected_errno")
               \cup Flg(refused /\ R.r.changed # << >>, "disposition_changed_by_refused_call")
               \cup Flg(~refused /\ ~(Range(R.r.changed) \subseteq {R.n}), "foreign_disposition_changed")
+              \cup Flg(refused /\ R.r.reg_changed # << >>, "registry_changed_by_refused_call")
+              \cup Flg(~refused /\ ~(Range(R.r.reg_changed) \subseteq
+                                      (IF R.entry = "signals_new_after_valid" THEN {R.n, 12} ELSE {R.n})),
+                       "foreign_registrations_changed")
+              \cup Flg(refused /\ R.r.fds_delta # 0, "descriptor_leaked_by_refused_constructor")
               \cup Flg(refused /\ R.r.drops # 1, "captured_state_not_released")
               \cup Flg(refused /\ (R.r.flag_rc # 1 \/ R.r.usz_rc # 1), "flag_reference_leaked")
               \cup Flg(refused /\ R.r.fd_open = 1, "descriptor_leaked")
